@@ -50,6 +50,7 @@ type Engine struct {
 	onceDone      map[*ssa.Global]bool
 	initConst     map[*ssa.Global]map[string]*ssa.Const
 	initNonNil    map[*ssa.Global]map[string]bool
+	pureMemo      map[*ssa.Function]int
 }
 
 func NewEngine(prog *ssa.Program, cg *callgraph.Graph, inModule func(*ssa.Function) bool, goarch string) *Engine {
@@ -395,9 +396,13 @@ func (a *FuncAn) check(b *ssa.BasicBlock, goals []Goal) (bool, string) {
 	hoisted := ""
 	for _, g := range goals {
 		if !a.Entails(b, g.L) {
+			a.hoistUntracked = ""
 			if why, ok := a.hoistWith(b, g.L, 2); ok {
 				hoisted = why
 				continue
+			}
+			if a.hoistUntracked != "" {
+				return false, untrackedPrefix + g.Text + "  [" + a.goalText(g.L) + "] is left to the callers, and " + a.hoistUntracked
 			}
 			if DebugAllFacts {
 				for _, f := range a.proverFor(a.in[b]).facts {
@@ -406,6 +411,9 @@ func (a *FuncAn) check(b *ssa.BasicBlock, goals []Goal) (bool, string) {
 			}
 			if why, un := a.untrackedIn(g.L); un {
 				return false, untrackedPrefix + g.Text + "  [" + a.goalText(g.L) + "] depends on " + why
+			}
+			if why, un := a.untrackedNear(b, g.L); un {
+				return false, untrackedPrefix + g.Text + "  [" + a.goalText(g.L) + "] is known only through " + why
 			}
 			return false, "cannot show " + g.Text + "  [" + a.goalText(g.L) + "]; facts: " + a.factsText(b, g.L)
 		}
